@@ -63,9 +63,17 @@ func nativeReplay(cex *CounterEx, ph PropHarness, file string) replayOutcome {
 	ob, _ := json.Marshal(ov)
 	ovf := filepath.Join(tmp, "overlay.json")
 	os.WriteFile(ovf, ob, 0o644)
-	cmd := exec.Command("go", "test", "-vet=off", "-count=1", "-timeout", "120s", "-overlay", ovf, "-run", "^TestZZReplay$", "-v", ph.Pkg)
-	cmd.Dir = repoDir
-	cmd.Env = append(os.Environ(), "GOFLAGS=-mod=mod", "GOPROXY=off", "ZZVERIF_REPLAY="+file, "ZZVERIF_FUNC="+ph.Func, "GOCACHE="+goCache())
+	bin := filepath.Join(tmp, "replay.test")
+	env := append(os.Environ(), "GOFLAGS=-mod=mod", "GOPROXY=off", "ZZVERIF_REPLAY="+file, "ZZVERIF_FUNC="+ph.Func, "GOCACHE="+goCache())
+	build := exec.Command("go", "test", "-c", "-vet=off", "-overlay", ovf, "-o", bin, ph.Pkg)
+	build.Dir = repoDir
+	build.Env = env
+	if bout, err := build.CombinedOutput(); err != nil {
+		return replayOutcome{Result: "build-error", Output: tail(string(bout), 3000)}
+	}
+	cmd := exec.Command(bin, "-test.run", "^TestZZReplay$", "-test.v", "-test.timeout", "120s")
+	cmd.Dir = tmp
+	cmd.Env = env
 	out, _ := cmd.CombinedOutput()
 	o := string(out)
 	res := "no-result"
@@ -281,29 +289,29 @@ func report(cfg *PropCfg, tier string, seed int64, results []*HarnessResult, hcf
 		evals = 1
 	}
 	cov := map[string]interface{}{
-		"explanation":            cfg.Explanation + " Decided by bounded symbolic execution of the real Go code (go/ssa, regenerated from /repo on this run) with an SMT solver deciding every path condition and every assertion; all statements hold only within the listed bounds.",
-		"evaluations":            evals,
-		"distinct_nontrivial":    distinct,
-		"rule":                   "evaluations = SMT queries discharged; distinct_nontrivial = feasible complete execution paths (distinct decision vectors) that reached at least one assertion",
-		"samples":                samples,
-		"obligations":            obligations,
-		"discharged":             discharged,
-		"paths_explored":         paths,
-		"reach_witnesses":        reachWitness,
-		"functions_encoded":      fnames,
-		"functions_encoded_count": len(fnames),
-		"stubs_hit":              snames,
-		"per_harness":            perHarness,
-		"solver":                 solverStats,
-		"bounds":                 boundsOf(cfg, tier, hcfgs),
-		"outside_the_claim":      cfg.Outside,
-		"trusted_base":           cfg.TrustedBase,
-		"load_s":                 loadS,
-		"inconclusive":           inconclusive,
+		"explanation":                 cfg.Explanation + " Decided by bounded symbolic execution of the real Go code (go/ssa, regenerated from /repo on this run) with an SMT solver deciding every path condition and every assertion; all statements hold only within the listed bounds.",
+		"evaluations":                 evals,
+		"distinct_nontrivial":         distinct,
+		"rule":                        "evaluations = SMT queries discharged; distinct_nontrivial = feasible complete execution paths (distinct decision vectors) that reached at least one assertion",
+		"samples":                     samples,
+		"obligations":                 obligations,
+		"discharged":                  discharged,
+		"paths_explored":              paths,
+		"reach_witnesses":             reachWitness,
+		"functions_encoded":           fnames,
+		"functions_encoded_count":     len(fnames),
+		"stubs_hit":                   snames,
+		"per_harness":                 perHarness,
+		"solver":                      solverStats,
+		"bounds":                      boundsOf(cfg, tier, hcfgs),
+		"outside_the_claim":           cfg.Outside,
+		"trusted_base":                cfg.TrustedBase,
+		"load_s":                      loadS,
+		"inconclusive":                inconclusive,
 		"unconfirmed_counterexamples": unconfirmed,
 		"confirmed_counterexamples":   confirmed,
-		"known_findings_seen":    knownSeen,
-		"exhaustive":             false,
+		"known_findings_seen":         knownSeen,
+		"exhaustive":                  false,
 	}
 	ev := map[string]interface{}{
 		"property_id": cfg.Property,
